@@ -282,6 +282,13 @@ def structural_queue(repo):
                       'before it was sent to the helper', 'detail': repr(ctors)}]
 
 
+def _standin(repo, seed, tier):
+    from pyvc.standin import run_standin
+    return run_standin('C14', tier, seed, repo)
+
+
+_standin.tiers = ('quick', 'thorough')
+BOUNDED = [_standin]
 STRUCTURAL = [structural_cleanup, structural_queue]
 NOT_DECIDED = ['"no query hangs" (liveness: a helper that is alive but stuck blocks pickle_load forever)',
                'file-descriptor accounting at OS level', 'true concurrency of the stderr thread / __del__ inside run()',
